@@ -16,6 +16,7 @@ ASSUMPTIONS = [
 TRUSTED = ['Lean 4.33 kernel', 'axioms: propext, Classical.choice, Quot.sound',
            'hand-written model Model/MState.lean: assocClasses, defensesOf, guards, addAsset, addAssociation (tied by this correspondence)',
            'harness/mhist.py, harness/props/c06.py']
+HIST_GEN_EVERY = 3         # every third history is also run on the generated code of the `model` domain (cost bound of the third column)
 WEIGHTS = {'add_asset': 10, 'add_association': 16, 'remove_asset': 1, 'remove_association': 1, 'lookup': 1}
 
 def class_inventory(spec):
@@ -115,8 +116,9 @@ def valid_state(im: Impl):
                 seen.add(key)
     return probs
 
-def run_history(spec, ops, mo_steps, res):
+def run_history(spec, ops, mo_steps, res, go_steps=None):
     im = Impl(spec)
+    gen_on = go_steps is not None
     for i, op in enumerate(ops):
         st = im.step(op)
         if st['err']: res.bump('rejected:' + st['err'])
@@ -127,6 +129,18 @@ def run_history(spec, ops, mo_steps, res):
             mo = mo_steps[i]
             a = [st['err'] is not None, canon_obs(st['obs'])]; b = [mo['err'] is not None, canon_obs(mo['obs'])]
             if a != b: return ('diverge', i, {'impl': a, 'model': b, 'impl_err': st['err'], 'model_err': mo['err']})
+            if gen_on:
+                # third column: the generated code of the `model` domain (Py/GenModel/*.lean, op `gen_model_hist`) on the same
+                # history, compared like the hand model: raises / does not raise, canonical state (the class is drift)
+                go = go_steps[i]
+                if go['err'] and go['err'].startswith('skip:'):
+                    gen_on = False; res.bump('generated_code_' + go['err'])      # outside what the prelude can express
+                else:
+                    res.bump('generated_code_steps_compared')
+                    g = [go['err'] is not None, canon_obs(go['obs'])]
+                    if a != g:
+                        return ('gen-diverge', i, {'impl': a, 'generated': g, 'hand_model': b, 'impl_err': st['err'], 'generated_err': go['err']})
+                    if st['err'] != go['err']: res.bump(f'generated-error-class-differs:{st["err"]}/{go["err"]}')
     return None
 
 # ---------------------------------------------------------------------------------------------------------------------
@@ -330,7 +344,8 @@ def genexec_measure(seed: int, n: int) -> dict:
     implementation, the hand model (`classes`) and the (regenerated) factory (`gen_classes`).  impl != hand: `check_inventory`
     reports something (factory raises, class table differs from the declaration / the model); gen = the generated factory on
     the language graph read off the real object (`fromLG`), compared on error class, ordered schema and signature answers.
-    Extra counters: `gen_lang_ne_impl` (the generated factory on the language graph built from the language, `fromLang`),
+    Then one history per language (`model_hist` / `gen_model_hist`, classified as the C05 family of the tool; the `hist_*`
+    counters are the share of the histories in the main counters).  Extra counters: `gen_lang_ne_impl` (the generated factory on the language graph built from the language, `fromLang`),
     `gen_table_ne_impl` (schema equal but the class table `Py/AbsClasses.lean` reads differs from the one the real classes
     show), `odd_cases` / `odd_gen_ne_impl` (the odd languages, no hand model)"""
     from maltoolbox.language import LanguageGraph
@@ -375,6 +390,47 @@ def genexec_measure(seed: int, n: int) -> dict:
             st['impl_ne_hand'] += 1
             if not d:
                 st['gen_follows_impl'] += 1; note('gen=impl!=hand', {'impl vs hand': v.what[:300], 'fingerprint': v.fingerprint})
+    # the histories of the property (C06 also checks what a model accepts): implementation / hand model (`model_hist`) /
+    # generated code of the `model` domain (`gen_model_hist`), classified like the C05 family of the tool; every history is
+    # one more case
+    hists = []
+    for spec in specs:
+        r = random.Random(rnd.getrandbits(48))
+        hists.append(Gen(r, spec, WEIGHTS, odd_defenses=True).gen(r.randint(6, 40)))
+    hand, gen = genexec.run_both([{'op': 'model_hist', 'case': i, 'lang': lang_payload(s), 'ops': hists[i]} for i, s in enumerate(specs)], 'gen_model_hist')
+    for k in ('hist_cases', 'hist_impl_ne_hand', 'hist_gen_follows_impl', 'hist_gen_ne_impl', 'raised_halfway'): st[k] = 0
+    for ci, spec in enumerate(specs):
+        st['cases'] += 1; st['hist_cases'] += 1
+        if 'error' in hand[ci] or 'error' in gen[ci]:
+            note('driver-error', [hand[ci].get('error'), gen[ci].get('error')]); continue
+        try: im = Impl(spec)
+        except Exception as e:
+            st['impl_crash'] += 1; note('impl-crash', f'Impl(): {type(e).__name__}'); continue
+        for i, op in enumerate(hists[ci]):
+            if op['k'] == 'add_asset' and any(d[1] == 'nan' for d in op.get('defenses', [])):
+                st['hist_cut_at_nan'] = st.get('hist_cut_at_nan', 0) + 1; break      # recorded finding (NaN passes the range check of the library): not a step to classify
+            try: sp = im.step(op)
+            except Exception as e:
+                st['impl_crash'] += 1; note('impl-crash', f'{type(e).__name__} at {op["k"]}'); break
+            mo, go = hand[ci]['model'][i], gen[ci]['model'][i]
+            if go['err'] and go['err'].startswith('skip:'): break
+            a = [sp['err'] is not None, canon_obs(sp['obs'])]
+            b = [mo['err'] is not None, canon_obs(mo['obs'])]
+            g = [go['err'] is not None, canon_obs(go['obs'])]
+            if a != g and a[0] and g[0]:
+                # both raise, the states differ: the implementation raised half-way, the translation drops the heap of a raising call
+                st['raised_halfway'] += 1
+                if not b[0]: st['impl_ne_hand'] += 1; st['gen_follows_impl'] += 1; st['hist_impl_ne_hand'] += 1; st['hist_gen_follows_impl'] += 1
+                note('raised-half-way', {'step': i, 'op': op, 'err': sp['err'], 'hand_err': mo['err']}); break
+            if a != g:
+                st['gen_ne_impl'] += 1; st['hist_gen_ne_impl'] += 1
+                note('gen!=impl', {'spec': spec, 'ops': hists[ci][:i + 1], 'impl': [sp['err'], sp['obs']], 'gen': [go['err'], go['obs']]})
+            if a != b:
+                st['impl_ne_hand'] += 1; st['hist_impl_ne_hand'] += 1
+                if a == g:
+                    st['gen_follows_impl'] += 1; st['hist_gen_follows_impl'] += 1
+                    note('gen=impl!=hand', {'step': i, 'op': op, 'impl_err': sp['err'], 'hand_err': mo['err'], 'gen_err': go['err']})
+            if a != b or a != g: break
     res = Result(); run_odd(seed, max(20, n // 3), res)
     st['odd_cases'] = res.distribution.get('generated_code_odd_languages_compared', 0)
     st['odd_gen_ne_impl'] = len(res.violations)
@@ -394,9 +450,10 @@ def run(seed, tier, lean) -> Result:
         r = random.Random(rnd.getrandbits(48))
         spec = LangGen(r, knobs={'dup_assoc_names': 0.5, 'zero_mult': 0.12, 'composite_def_ttc': 0.3}).gen()
         cases.append((spec, Gen(r, spec, WEIGHTS, odd_defenses=True).gen(r.randint(6, 40))))
-    model = inv = gen = None
+    model = inv = gen = gmodel = None
     if lean['build_ok']:
-        model = run_driver([{'op': 'model_hist', 'case': i, 'lang': lang_payload(s), 'ops': o} for i, (s, o) in enumerate(cases)])
+        model, gmodel = genexec.run_both([{'op': 'model_hist', 'case': i, 'lang': lang_payload(s), 'ops': o} for i, (s, o) in enumerate(cases)],
+                                         'gen_model_hist', every=HIST_GEN_EVERY)
         # third column: the real language graphs are built first (the generated factory is handed what the real one is handed)
         from maltoolbox.language import LanguageGraph
         lgs, sigs = [], [signatures(s) for s, o in cases]
@@ -427,7 +484,11 @@ def run(seed, tier, lean) -> Result:
                         break
                 res.bump('generated_code_schemas_compared', 2); res.bump('generated_code_signatures_compared', 2 * len(sigs[i]))
         mo = model[i].get('model') if model is not None else None
-        bad = run_history(spec, ops, mo, res)
+        go = None
+        if gmodel is not None and gmodel[i] is not None:
+            if 'error' in gmodel[i]: res.violations.append(genexec.driver_error('C06', gmodel[i]['error'], {'spec': spec, 'ops': ops}))
+            else: go = gmodel[i]['model']
+        bad = run_history(spec, ops, mo, res, go)
         names = [a['name'] for a in spec['associations']]
         if len(set(names)) < len(names) or any(a['superAsset'] for a in spec['assets']): res.nontrivial.add(canon_hash([spec, ops]))
         if bad:
@@ -435,6 +496,9 @@ def run(seed, tier, lean) -> Result:
             if kind == 'oracle':
                 res.violations.append(Violation(what=f'{info[0]} after {ops[at]["k"]}', fingerprint='C06:' + info[0][:50],
                                                 replay={'spec': spec, 'ops': ops[:at + 1], 'problems': info}))
+            elif kind == 'gen-diverge':
+                res.violations.append(genexec.divergence('C06', ops[at]['k'], f'after step {at} ({ops[at]["k"]}) of a history',
+                                                         {'spec': spec, 'ops': ops[:at + 1], **info}))
             else:
                 res.violations.append(Violation(what=f'implementation and Lean model disagree on accepting {ops[at]["k"]} (impl {info["impl_err"]}, model {info["model_err"]})',
                                                 fingerprint='C06:model-divergence:' + ops[at]['k'], replay={'spec': spec, 'ops': ops[:at + 1], **info}, no_failing_input=True))
